@@ -208,6 +208,7 @@ func runC14(c *Checker) {
 	// ---- CHUNK-2: payload slicing
 	data := ssa.Value(send.Params[1])
 	nPay := 0
+	offsetPhis := map[*ssa.Phi]bool{} // the running offset(s) the chunks are cut at
 	allInstrs(send, func(in ssa.Instruction) {
 		st, ok := in.(*ssa.Store)
 		if !ok {
@@ -234,6 +235,7 @@ func runC14(c *Checker) {
 			c.fail("CHUNK-2", key, instrPos(st), "chunk does not start at the running offset")
 			return
 		}
+		offsetPhis[off] = true
 		// the offset's edges: 0 or off + advance
 		facts := factsAt(st.Block())
 		// the edge of `off` (possibly through a merge phi) coming from this block
@@ -279,7 +281,7 @@ func runC14(c *Checker) {
 	// offset starts at 0
 	allInstrs(send, func(in ssa.Instruction) {
 		phi, ok := in.(*ssa.Phi)
-		if !ok || phi.Comment != "sentBytes" || len(phi.Block().Preds) < 2 {
+		if !ok || !offsetPhis[phi] || len(phi.Block().Preds) < 2 {
 			return
 		}
 		for i, e := range phi.Edges {
